@@ -17,6 +17,10 @@ def _plt(work, name, seed, **kw):
     g.update(kw)
     if seed % 2 == 1:
         g.setdefault("file_id_base", "mixed")      # file numbers of five and six digits at one level
+        if "payload" not in kw:
+            # ... and data with NaN / inf / signed zeros and whole box components that are zero, uniform, exactly
+            # cancelling or of trace magnitude: what a value-dependent transport or shortcut would treat differently
+            g["payload"] = "special"
     m = gen.gen_model(**g)
     m.genparams = dict(g)
     # make sure some level has several files (several tasks per pool call)
